@@ -13,7 +13,8 @@ TIMEOUT = {'quick': 900, 'thorough': 5400}
 MUST_HIT = ['IdFresh.instance-attribute', 'Generator.user-source-sequence', 'Generator.swapped', 'ArgModel.creation', 'IdFresh.defaulted-id', 'IdFresh.generator-next', 'Generator.peek',
             'Generator.integer-sequence', 'UnknownType.rejected', 'Referential.argument',
             'Schema.association-formalized-after-creations', 'Schema.attribute-replaced',
-            'Schema.attribute-added', 'Schema.attribute-removed']
+            'Schema.attribute-added', 'Schema.attribute-removed', 'Generator.drawn-by-for-break',
+            'Generator.drawn-by-islice', 'Generator.drawn-by-zip', 'Generator.drawn-by-next(iter())']
 MUST_REACH = ['xtuml/meta.py:MetaClass.default_value', 'xtuml/meta.py:MetaClass.new',
               'xtuml/tools.py:IdGenerator.peek', 'xtuml/tools.py:IdGenerator.next',
               'xtuml/tools.py:UUIDGenerator.readfunc', 'xtuml/tools.py:IntegerGenerator.readfunc']
@@ -204,9 +205,37 @@ def run_case(ctx, rng, n_case):
             before = len(log)
             p1 = gen.peek()
             p2 = gen.peek()
-            n = next(gen) if rng.random() < 0.5 else gen.next()
-            if not (p1 == p2 == n) or len(log) != before + 1:
-                raise Mismatch('generator/peek-advances', 'peek, peek, next gave %r %r %r' % (p1, p2, n))
+            how = rng.choice(('next()', 'gen.next()', 'next(iter())', 'for-break', 'islice', 'zip'))
+            ctx.hit('Generator.drawn-by-' + how)
+            if how == 'next()':
+                drawn = [next(gen)]
+            elif how == 'gen.next()':
+                drawn = [gen.next()]
+            elif how == 'next(iter())':
+                drawn = [next(iter(gen))]
+            elif how == 'for-break':
+                drawn = []
+                for v in gen:
+                    drawn.append(v)
+                    if len(drawn) == 2 or rng.random() < 0.5:
+                        break
+            elif how == 'islice':
+                import itertools
+                drawn = list(itertools.islice(gen, rng.randint(1, 2)))
+            else:
+                drawn = [v for _, v in zip(range(rng.randint(1, 2)), gen)]
+            if len(log) == before:
+                # an iteration that does not go through next() is fine as long as it hands out what next()
+                # would have handed out: the values join the sequence of this generator
+                log.extend(drawn)
+            n = drawn[0]
+            if not (p1 == p2 == n) or log[before:] != drawn:
+                raise Mismatch('generator/peek-advances', 'peek, peek, %s gave %r %r %r (the generator handed out %r)'
+                               % (how, p1, p2, drawn, log[before:]))
+            n = drawn[-1]
+            if len(set(log)) != len(log):
+                raise Mismatch('generator/repeats', 'the generator handed out %r twice (last drawn by %s)'
+                               % ([v for v in log if log.count(v) > 1][:1], how))
             if gkind == 'user':
                 # a generator drawing from its own source: the values handed out are the source values in
                 # order, none skipped (at most one value read ahead) - whatever was peeked in between
